@@ -4,6 +4,9 @@ import (
 	"encoding/json"
 	"errors"
 	"fmt"
+	"hash/adler32"
+	"hash/crc32"
+	"hash/fnv"
 	"math/rand"
 	"os"
 	"reflect"
@@ -1402,6 +1405,7 @@ func runC20(e *Env) error {
 		}
 	}
 	c20ReceiverResults(e)
+	c20HashCollisions(e)
 	r.Note(fmt.Sprintf("%d lookups, %d distinct (struct type, name) pairs through the cache (maxSize 1000), %d generated types", c.lookup, len(c.pairs), gen))
 	if len(c.pairs) <= 1000 {
 		r.Violate(Violation{Key: "harness-weak", What: "fewer than 1001 distinct pairs: eviction never ran", Broken: "C20 harness coverage",
@@ -1456,4 +1460,123 @@ func c20ReceiverResults(e *Env) {
 			}
 		}
 	}
+}
+
+// Attribute names that collide under common 32-bit string hashes (FNV-1, FNV-1a, CRC-32, Adler-32, the 31- and
+// 33-multiplier polynomial hashes, sdbm): a lookup is by name, never by a digest of the name (seeded change C20-I).
+// The pairs are searched once per run among generated identifiers.
+func c20HashCollisions(e *Env) {
+	r := e.Rep
+	hashes, names := collisionHashes(), collisionNames()
+	for _, hname := range sortedKeys(hashes) {
+		h := hashes[hname]
+		seen := map[uint32]string{}
+		var pairs [][2]string
+		for _, n := range names {
+			k := h(n)
+			if o, ok := seen[k]; ok && o != n {
+				pairs = append(pairs, [2]string{o, n})
+				if len(pairs) >= 4 {
+					break
+				}
+			} else {
+				seen[k] = n
+			}
+		}
+		r.Hit(fmt.Sprintf("hash-collision-pairs:%s:%d", hname, len(pairs)))
+		for pi, pr := range pairs {
+			for _, order := range [][2]int{{0, 1}, {1, 0}} {
+				// a fresh type per order: the first lookup decides what a digest-keyed table remembers
+				fields := []reflect.StructField{{Name: pr[0], Type: reflect.TypeOf("")}, {Name: pr[1], Type: reflect.TypeOf("")}, {Name: fmt.Sprintf("Pad%s%d%d", hname, pi, order[0]), Type: reflect.TypeOf(0)}}
+				v := reflect.New(reflect.StructOf(fields)).Elem()
+				v.Field(0).SetString("value-of-" + pr[0])
+				v.Field(1).SetString("value-of-" + pr[1])
+				a, b := pr[order[0]], pr[order[1]]
+				src := "{{ x." + a + " }}|{{ x." + b + " }}|{{ x." + a + " }}|{% for i in [1, 2] %}{{ x." + b + " }}{% endfor %}"
+				want := "value-of-" + a + "|value-of-" + b + "|value-of-" + a + "|value-of-" + b + "value-of-" + b
+				for _, x := range []interface{}{v.Interface(), v.Addr().Interface()} {
+					res := renderSrc(src, map[string]any{"x": x})
+					r.Seen(fmt.Sprintf("collision:%s:%d:%v:%T", hname, pi, order, x), true)
+					if res.Class != "" || res.Out != want {
+						r.Violate(Violation{Key: "attr-wrong-member", What: fmt.Sprintf("field names %q and %q (equal under the %s hash) on one struct: %s renders %q (%s), expected %q", pr[0], pr[1], hname, src, res.Out, res.Class, want),
+							Broken: "theorem C20_attribute_right (the key of a lookup is the name itself; implementation-only oracle)", Replay: map[string]any{"kind": "src", "src": src, "fields": pr, "hash": hname, "got": res.Out, "want": want}})
+						return
+					}
+				}
+			}
+		}
+	}
+}
+
+func collisionHashes() map[string]func(string) uint32 {
+	return map[string]func(string) uint32{
+		"fnv1a": func(s string) uint32 { h := fnv.New32a(); h.Write([]byte(s)); return h.Sum32() },
+		"fnv1":  func(s string) uint32 { h := fnv.New32(); h.Write([]byte(s)); return h.Sum32() },
+		"crc32": func(s string) uint32 { return crc32.ChecksumIEEE([]byte(s)) },
+		"adler": func(s string) uint32 { return adler32.Checksum([]byte(s)) },
+		"poly31": func(s string) uint32 {
+			var h uint32
+			for i := 0; i < len(s); i++ {
+				h = h*31 + uint32(s[i])
+			}
+			return h
+		},
+		"djb2": func(s string) uint32 {
+			h := uint32(5381)
+			for i := 0; i < len(s); i++ {
+				h = h*33 + uint32(s[i])
+			}
+			return h
+		},
+		"sdbm": func(s string) uint32 {
+			var h uint32
+			for i := 0; i < len(s); i++ {
+				h = uint32(s[i]) + (h << 6) + (h << 16) - h
+			}
+			return h
+		},
+	}
+}
+
+var collisionNamesCache []string
+
+func collisionNames() []string {
+	if collisionNamesCache != nil {
+		return collisionNamesCache
+	}
+	const alphabet = "ABCDEFGHIJKLMNOPQRSTUVWXYZabcdefghijklmnopqrstuvwxyz0123456789"
+	rng := rand.New(rand.NewSource(20)) // the same names on every run: the pairs depend on the hash functions only
+	names := make([]string, 0, 1200000)
+	for len(names) < 1200000 {
+		n := 3 + rng.Intn(6)
+		bs := make([]byte, n+1)
+		bs[0] = "ABCDEFGHIJKLMNOPQRSTUVWXYZ"[rng.Intn(26)]
+		for k := 1; k <= n; k++ {
+			bs[k] = alphabet[rng.Intn(len(alphabet))]
+		}
+		names = append(names, string(bs))
+	}
+	collisionNamesCache = names
+	return names
+}
+
+// collisionPairs: up to k pairs of names per hash function that the function maps to the same value
+func collisionPairs(k int) map[string][][2]string {
+	out := map[string][][2]string{}
+	hashes, names := collisionHashes(), collisionNames()
+	for hname, h := range hashes {
+		seen := map[uint32]string{}
+		for _, n := range names {
+			d := h(n)
+			if o, ok := seen[d]; ok && o != n {
+				out[hname] = append(out[hname], [2]string{o, n})
+				if len(out[hname]) >= k {
+					break
+				}
+			} else {
+				seen[d] = n
+			}
+		}
+	}
+	return out
 }
